@@ -8,6 +8,10 @@ Update == /\ More /\ Ev.op = "update"
           /\ Chk("total", total', Ev.total) /\ Chk("since", since', Ev.since)
           /\ Chk("state", st', Ev.state) /\ Chk("recs", recs', Ev.recs)
           /\ Adv
-Next == Update
+Counters == /\ Chk("total", total', Ev.total) /\ Chk("since", since', Ev.since)
+            /\ Chk("state", st', Ev.state) /\ Chk("recs", recs', Ev.recs)
+UserReset == /\ More /\ Ev.op = "reset" /\ Reset /\ Counters /\ Adv
+Refused == /\ More /\ Ev.op = "bad" /\ (UNCHANGED eddmvars \/ PendingReset) /\ Counters /\ Adv
+Next == Update \/ UserReset \/ Refused
 Spec == Init /\ [][Next]_tvars
 ==========================================================================
